@@ -74,6 +74,8 @@ static void bs_harness_init(void)
   BS_SUMS = bs_sums;
   struct bs_pos_t bs_poss;
   BS_POSS = bs_poss;
+  struct bs_solx_t bs_solx;
+  BS_SOLX = bs_solx;
   bs_exc = 0;
 }
 #endif
